@@ -1,4 +1,5 @@
 import Spdc.Real.TwoSrcLemmas
+import Spdc.Real.ComposeGridLemmas
 /-!
 # C10 — two-source HOM visibility equals the heralded-photon purity
 
@@ -197,5 +198,75 @@ example : ∃ p vsi, twoSourceVisibilities true (⟨⟨1, 2, 2⟩, ⟨3, 5, 2⟩
   obtain ⟨vsi, h⟩ := visibility_eq_purity (fun _ _ => (⟨1, 0⟩ : Cx ℝ)) 2 ⟨⟨1, 2, 2⟩, ⟨3, 5, 2⟩⟩ rfl rfl
     (by norm_num [sampled, Steps2D.len, jsiNorm, sumList, Cx.normSq, List.range, List.range.loop]) 0 0 0
   exact ⟨_, vsi, h⟩
+
+/-! ## composed model (grid level)
+
+The theorems above take the eight amplitude grids (or an amplitude function `J`) as inputs.  Below
+they are lifted to the COMPOSED model (`Spdc/Model/ComposeGrid.lean`): `homTwoSourceVisibilities` and
+`homTwoSourceSeries` are `SPDC::hom_two_source_visibilities` / `hom_two_source_rate_series` of a
+primitive setup against itself — spectrum objects through the composed `try_as_optimum`, the eight
+grids by mapping the composed `jsa` over the eight axis pairs in the code's order. -/
+
+/-- the three `assert_eq!` pass on a square range and the eight composed grids are the layer's
+`twoSrcOf` of the total composed amplitude function -/
+theorem compose_twoSrc_eq (js : Compose.JS ℝ) (J : PM.JSetup ℝ) (hJ : Compose.jsetup js.S = .ok J)
+    (q : List (ℝ × ℝ) × ℝ) (hq : Compose.simpsonRule js.divs = .ok q) (r : Steps2D ℝ)
+    (hxy : r.x.n = r.y.n) :
+    Compose.twoSrcChecked js js r r = .ok (twoSrcOf (PM.jsa J q.1 q.2) (PM.jsa J q.1 q.2) r r) := by
+  unfold Compose.twoSrcChecked
+  simp only [hxy, ne_eq, not_true_eq_false, if_false]
+  exact Compose.twoSrc_eq hJ hJ hq hq r r
+
+/-- composed model, T1+T2 lifted: for ANY primitive setup against itself on a square range (non-zero
+composed spectrum), the signal–signal and idler–idler visibilities returned by the composed
+`SPDC::hom_two_source_visibilities` both equal the purity `Σλ²/(Σλ)²` of the composed amplitude
+matrix (`λ` the eigenvalues of `FᴴF`). -/
+theorem compose_visibility_eq_purity (S : Compose.Setup ℝ) (divs : Nat) (js : Compose.JS ℝ)
+    (hjs : Compose.jointSpectrum S divs = .ok js) (J : PM.JSetup ℝ) (hJ : Compose.jsetup S = .ok J)
+    (q : List (ℝ × ℝ) × ℝ) (hq : Compose.simpsonRule divs = .ok q)
+    (n : ℕ) (r : Steps2D ℝ) (hx : r.x.n = n) (hy : r.y.n = n)
+    (hN : jsiNorm (sampled (PM.jsa J q.1 q.2) r) ≠ 0) :
+    let hG := Matrix.isHermitian_conjTranspose_mul_self (Fmat (sampled (PM.jsa J q.1 q.2) r) n)
+    ∃ vsi, Compose.homTwoSourceVisibilities S divs (.freq r) =
+      .ok ((∑ i, (hG.eigenvalues i) ^ 2) / (∑ i, hG.eigenvalues i) ^ 2,
+           (∑ i, (hG.eigenvalues i) ^ 2) / (∑ i, hG.eigenvalues i) ^ 2, vsi) := by
+  intro hG
+  obtain ⟨hS, hd, -⟩ := Compose.jointSpectrum_ok hjs
+  obtain ⟨vsi, hv⟩ := visibility_eq_purity (PM.jsa J q.1 q.2) n r hx hy hN (0.0 : ℝ) (0.0 : ℝ) (0.0 : ℝ)
+  refine ⟨vsi, ?_⟩
+  unfold Compose.homTwoSourceVisibilities
+  rw [hjs]
+  simp only [Outcome.bind, Compose.Ranges.toFrequencySpace]
+  rw [compose_twoSrc_eq js J (hS ▸ hJ) q (hd ▸ hq) r (hx.trans hy.symm)]
+  exact hv
+
+/-- composed model, T4 lifted: on a range with identical signal and idler axes all three rates of the
+composed `SPDC::hom_two_source_rate_series` lie in `[0, 1]` at every delay. -/
+theorem compose_two_source_mem_unit (S : Compose.Setup ℝ) (divs : Nat) (js : Compose.JS ℝ)
+    (hjs : Compose.jointSpectrum S divs = .ok js) (J : PM.JSetup ℝ) (hJ : Compose.jsetup S = .ok J)
+    (q : List (ℝ × ℝ) × ℝ) (hq : Compose.simpsonRule divs = .ok q)
+    (n : ℕ) (ax : Steps ℝ) (hn : ax.n = n)
+    (hN : 0 < jsiNorm (sampled (PM.jsa J q.1 q.2) ⟨ax, ax⟩)) (δ : ℝ) :
+    ∃ ss ii si, Compose.homTwoSourceSeries S divs (.freq ⟨ax, ax⟩) [δ] = .ok ([ss], [ii], [si]) ∧
+      (0 ≤ ss ∧ ss ≤ 1) ∧ (0 ≤ ii ∧ ii ≤ 1) ∧ (0 ≤ si ∧ si ≤ 1) := by
+  obtain ⟨hS, hd, -⟩ := Compose.jointSpectrum_ok hjs
+  have hb := all_mem_unit_identical_axes (PM.jsa J q.1 q.2) n ax hn hN δ
+  refine ⟨_, _, _, ?_, hb⟩
+  unfold Compose.homTwoSourceSeries Compose.homTwoSourceSeriesJS
+  rw [hjs]
+  simp only [Outcome.bind, Compose.Ranges.toFrequencySpace]
+  rw [compose_twoSrc_eq js J (hS ▸ hJ) q (hd ▸ hq) ⟨ax, ax⟩ rfl]
+  simp [homTwoSourceSeries, hn]
+
+/-- non-vacuity of the structural hypotheses: a 2×2 range with identical axes -/
+example : (⟨⟨1, 2, 2⟩, ⟨1, 2, 2⟩⟩ : Steps2D ℝ).x.n = 2 ∧ (⟨⟨1, 2, 2⟩, ⟨1, 2, 2⟩⟩ : Steps2D ℝ).y.n = 2 :=
+  ⟨rfl, rfl⟩
+
+/-- non-vacuity of the outcome hypotheses (`hjs`, `hJ`, `hq`): for the concrete unpoled KTP setup
+`Compose.exGrid` (explicit idler, 775 → 1500 + 1603 nm) the spectrum object (Simpson-50), the
+joint-spectrum view and the Simpson rule all exist over ℝ (`Compose.grid_hypotheses_satisfiable`
+shows the same for every unpoled explicit-idler setup with `0 ≠ λ_p < λ_s`) -/
+example : ∃ js J q, Compose.jointSpectrum Compose.exGrid 50 = .ok js ∧ Compose.jsetup Compose.exGrid = .ok J ∧
+    (Compose.simpsonRule 50 : Outcome (List (ℝ × ℝ) × ℝ)) = .ok q := Compose.exGrid_available
 
 end Spdc.Props.C10
